@@ -102,6 +102,17 @@ def gen() -> None:
     if stmts[i - 2: i] != ["encoder = MultipartEncoder(boundary.encode())", "write_binary(encoder.send_event(Preamble(data=b'')))"] \
             or stmts[i + 1] != "write_binary(encoder.send_event(Epilogue(data=b'')))":
         raise px.Unsupported(f"stream_encode_multipart: statements around the loop changed: {stmts[i - 2: i + 2]}")
+    # statement skeletons of what the hand-written models stand for (the literals and the safe string are regenerated above)
+    fpm = px.load("formparser.py")
+    fdp = px.find_class(fpm, "FormDataParser")
+    sreq = px.find_class(px.load("sansio/request.py"), "Request")
+    sk = [("sansio.multipart", px.find_class(mp, "MultipartEncoder")), ("urls", fn),
+          ("formparser.FormDataParser", px.find_method(fdp, "parse")), ("formparser.FormDataParser", px.find_method(fdp, "_parse_multipart")),
+          ("sansio.request.Request", px.find_method(sreq, "args")), ("test", px.find_def(tst, "_iter_data"))]
+    holes = {ast.unparse(i.test): "<LIMIT-CONDITION>" for i in px.ifs_raising(px.find_method(fdp, "_parse_urlencoded"), "RequestEntityTooLarge")}
+    sk_text = "\n".join(f"## {o}.{f.name}\n" + px.skeleton(f) for o, f in sk)
+    sk_text += "\n## formparser.FormDataParser._parse_urlencoded\n" + px.skeleton(px.find_method(fdp, "_parse_urlencoded"), holes) + "\n"
+    px.check_pin("C02", "c02_forms.txt", sk_text, "statement skeleton of the form encoders / parsers")
     text = px.HEADER.format(tool="c02.py", src="urls.py, sansio/multipart.py, test.py")
     text += f"Definition client_read_size : N := {read_size}.\n"
     text += f"Definition urlencode_safe_text : list N := {px.coq_string_codes(safe)}.\n"
